@@ -200,6 +200,25 @@ def c03(tier, seed, t0):
         assumptions=["expected width of each line computed by the harness from the text it builds (tabs as 4-column stops)"])
 
 
+@register("C13")
+def c13(tier, seed, t0):
+    from harness import header as H
+    res = R.run_pool(H.HNAME, H.chunks(tier), 280 if tier == "quick" else 1500, seed, tier,
+                     extra=dict(query_timeout=240 if tier == "quick" else 900))
+    agg = R.merge(res)
+    bounds = dict(fields="file name [A-Za-z0-9_.-]{1,41}, login [a-z0-9_-]{1,9}, mail [a-z0-9_.@-]{1,25}, dates dddd/dd/dd dd:dd:dd; "
+                         "every line exactly 80 columns (a constraint, not an assumption about field lengths)",
+                  regex_queries=[" ".join(map(str, m)) for m in H.mutations(tier)],
+                  structural_shapes=H.STRUCT, instances=len(H.INSTANCES),
+                  per_query_timeout_s=200 if tier == "quick" else 900,
+                  outside="two simultaneous mutations; non-ASCII field values")
+    return R.report("C13", H.HNAME, tier, seed, agg, t0, bounds,
+                    functions=["CheckHeader.check_header (pattern string read from the AST, translated to a z3 regex)",
+                               "CheckHeader.run / parse_header (real code through Registry.run)", "Lexer.parse_multi_line_comment"],
+                    assumptions=["z3 sequence theory decides regex membership of the 11-line template over string variables",
+                                 "sat answers are concretised and replayed through the real pipeline"])
+
+
 def main():
     ap = argparse.ArgumentParser()
     ap.add_argument("prop")
